@@ -18,6 +18,7 @@ LEVEL_TEXT = (
     "body runs"
     "; task.unique equals the specified transition table on all small registries and keeps the owner map and the per-task name sets mutually consistent; names claimed by a task's own done callbacks are released too; the kill_me pre-check and the claim use the same evaluator"
     '; the evaluator of a triggered function is built on its own context; the reaper delivers every cancel command; keys of nested contexts never meet; the legacy claim applies the kill_me rule itself'
+    '; a caller pyscript did not start is never cancelled (kill_me included); the empty name is a name; call handlers are bound at dispatch; every legacy trigger task carries @task_unique'
 )
 LEVEL_NOTE = (
     "cancellation is asynchronous through the reaper task: 'at most one live owner' over schedules is not decided by "
